@@ -61,6 +61,14 @@ pub assume_specification<K: Ord, V, A: std::alloc::Allocator + Clone>[BTreeMap::
             Some((k, v)) => old(m)@.contains_key(k) && old(m)@[k] == v && final(m)@ == old(m)@.remove(k),
         };
 
+pub assume_specification<K: Ord, A: std::alloc::Allocator + Clone>[std::collections::BTreeSet::<K, A>::pop_first](m: &mut std::collections::BTreeSet<K, A>) -> (r: Option<K>)
+    ensures
+        // (that the popped element is the least one is not stated: no verified property depends on it)
+        vstd::std_specs::btree::key_obeys_cmp_spec::<K>() ==> match r {
+            None => old(m)@.len() == 0 && final(m)@ == old(m)@,
+            Some(k) => old(m)@.contains(k) && final(m)@ == old(m)@.remove(k),
+        };
+
 // ---- HashMap ----
 // vstd specifies HashMap::entry through `EntrySpecFns` (value() now, final_value() when the borrow ends)
 pub assume_specification<'a, K, V, A: std::alloc::Allocator, F: FnOnce() -> V>[hash_map::Entry::<'a, K, V, A>::or_insert_with](e: hash_map::Entry<'a, K, V, A>, default: F) -> (r: &'a mut V)
